@@ -181,6 +181,8 @@ pub enum Op {
     },
     /// Opaque TeX text (differential workloads only; the scoping model ignores it).
     Raw(String),
+    /// A whole line of opaque text; no `%` is appended, so the end-of-line character is observable.
+    RawLine(String),
 }
 
 #[derive(Clone, Debug, Default, PartialEq, Eq, Serialize, Deserialize)]
